@@ -29,9 +29,10 @@ fn marker_item(w: &World, marker: u64) -> Option<(u64, Vec<u8>)> {
             let k = (marker - 200) as usize;
             Some((2, w.certs[k].cert.to_bytes()))
         }
-        300..=399 => Some((3, RewardAddress::new(1, &Credential::from_scripthash(&w.plutus[1].hash())).to_address().to_bytes())),
-        400..=499 => Some((1, w.plutus[1].hash().to_bytes())),
-        500..=599 => Some((4, w.plutus[2].hash().to_bytes())),
+        300..=399 => Some((3, RewardAddress::new(1, &Credential::from_scripthash(&w.plutus[if marker == 305 { 0 } else { 1 }].hash())).to_address().to_bytes())),
+        400..=499 => Some((1, w.plutus[if marker == 401 { 0 } else { 1 }].hash().to_bytes())),
+        500..=599 => Some((4, w.plutus[if marker == 505 { 0 } else { 2 }].hash().to_bytes())),
+        600..=699 => Some((5, guarded_proposal(w, (marker - 600) as usize).to_bytes())),
         _ => None,
     }
 }
@@ -82,6 +83,7 @@ pub fn judge_tx(ctx: &mut Ctx, w: &World, _st: &St, t: &PTx, what: &dyn Fn() -> 
             2 => t.certs.get(r.index as usize).map(|c| t.bytes[c.start..c.end].to_vec()),
             3 => ras.get(r.index as usize).cloned(),
             4 => voters.get(r.index as usize).map(|(_, h)| h.clone()),
+            5 => t.proposals.get(r.index as usize).map(|c| t.bytes[c.start..c.end].to_vec()),
             _ => None,
         };
         match resolved {
@@ -102,7 +104,11 @@ pub fn judge_tx(ctx: &mut Ctx, w: &World, _st: &St, t: &PTx, what: &dyn Fn() -> 
                     };
                     ctx.violation(format!("{}/{}/points-at-another-item/{}", P, purpose, relation), format!("redeemer with marker {} has index {} which resolves to {} instead of {} ; {}", marker, r.index, crate::util::hx(&id[..id.len().min(8)]), crate::util::hx(&want_id[..want_id.len().min(8)]), what()));
                 } else {
-                    ctx.hit(match r.tag { 0 => "spend-ok", 1 => "mint-ok", 2 => "cert-ok", 3 => "reward-ok", _ => "vote-ok" });
+                    ctx.hit(match r.tag { 0 => "spend-ok", 1 => "mint-ok", 2 => "cert-ok", 3 => "reward-ok", 4 => "vote-ok", _ => "propose-ok" });
+                    let same_purpose = t.redeemers.iter().filter(|x| x.tag == r.tag).count();
+                    if same_purpose >= 2 {
+                        ctx.hit(match r.tag { 0 => "spend:>=2-redeemers", 1 => "mint:>=2-redeemers", 2 => "cert:>=2-redeemers", 3 => "reward:>=2-redeemers", 4 => "vote:>=2-redeemers", _ => "propose:>=2-redeemers" });
+                    }
                 }
             }
         }
@@ -125,10 +131,10 @@ pub fn scenario(name: &str, tier: Tier) -> Option<BoxedScenario> {
 
 pub fn run(tier: Tier, seed: u64) -> i32 {
     let mut rep = Report::new(P, tier, seed);
-    rep.rule = "all histories (every insertion order) over Plutus and non-Plutus inputs on adversarial outpoints, native and Plutus policies, script and key certificates, key / native-script / Plutus withdrawals, CC key / CC script / DRep script voters, to the stated depth; each redeemer's data is a unique integer naming its item; pointers resolved in the parsed body by the ledger's ordering rules. distinct = distinct built transactions".into();
+    rep.rule = "all histories (every insertion order) over Plutus and non-Plutus inputs on adversarial outpoints, native and Plutus policies, script and key certificates, key / native-script / Plutus withdrawals, CC key / CC script / DRep script voters, plain and Plutus-guarded proposals (two Plutus items in every purpose: spend, mint, cert, reward, vote, propose), to the stated depth; each redeemer's data is a unique integer naming its item; pointers resolved in the parsed body by the ledger's ordering rules. distinct = distinct built transactions".into();
     rep.assume("reward accounts are ordered as the ledger's RewardAccount (network, script credential before key credential, hash); voters as the ledger's Voter");
     rep.trusted_base = vec!["notes/ledger_rules.md §5 (redeemer pointer resolution)".into()];
-    rep.required_hits = vec!["spend-ok", "mint-ok", "cert-ok", ">=2-redeemers"];
+    rep.required_hits = vec!["spend-ok", "mint-ok", "cert-ok", "reward-ok", "vote-ok", "propose-ok", ">=2-redeemers", "spend:>=2-redeemers", "mint:>=2-redeemers", "cert:>=2-redeemers", "reward:>=2-redeemers", "vote:>=2-redeemers", "propose:>=2-redeemers"];
     crate::builder::explore_for(P, tier, seed, &mut rep);
     rep.finish()
 }
